@@ -372,7 +372,7 @@ impl Check for PolyNewton {
         let dp: C = (0..deg).filter(|j| *j != p.which_root).map(|j| z - roots[j]).product();
         let cond = coeffs.iter().enumerate().map(|(k, c)| c.norm() * z.norm().powi(k as i32)).sum::<f64>() / dp.norm().max(1e-300);
         let floor = 64.0 * EPS * cond + 1e-300;
-        let bound = |r: f64| 8.0 * p.tol * r.max(1.0) + floor;
+        let bound = |r: f64| p.tol * r.max(1.0) + floor;
         let ctx = || format!("{:?} roots {:?} start {}", p, roots, start);
         let desc_c: Vec<C> = coeffs.iter().rev().cloned().collect();
         let poly_c = Polynomial::<C>::from_slice(&desc_c);
@@ -551,7 +551,7 @@ impl Check for Steffensen {
             }
             Ok(Ok(x)) => {
                 let err = (x - fp).abs();
-                let bound = 8.0 * p.tol + 64.0 * EPS * fp.abs().max(1.0);
+                let bound = p.tol + 64.0 * EPS * fp.abs().max(1.0);
                 o.metric("steffensen-error/bound", err / bound);
                 if !(x.is_finite() && err <= bound) {
                     o.viol("roots::steffensen", "returns-the-fixed-point", format!("{}: Ok({}) is {:e} away (bound {:e})", ctx(), x, err, bound));
